@@ -165,7 +165,7 @@ func GenCase(t *rapid.T, withFaults bool) *Case {
 	for i := 0; i < nT; i++ {
 		s, tot := genSize(t, c, fmt.Sprintf("t%d", i), true)
 		c.Targets = append(c.Targets, FarmSpec{Hash: uint64(i + 1), Job: rapid.SampledFrom([]string{"j0", "j1"}).Draw(t, fmt.Sprintf("t%d-job", i)),
-			Series: s, Total: tot, Healthy: rapid.IntRange(0, 9).Draw(t, fmt.Sprintf("t%d-healthy", i)) != 0})
+			Series: s, Total: tot, Healthy: rapid.IntRange(0, 9).Draw(t, fmt.Sprintf("t%d-healthy", i)) != 0, Hang: rapid.Bool().Draw(t, fmt.Sprintf("t%d-hang", i))})
 	}
 	c.Min = int32(pick(t, "min", 5, 3, 2))
 	c.Max = int32(nT + c.InitShards + 3)
